@@ -695,6 +695,7 @@ func (t *Tree) Compile(file string, args []string, out io.Writer) (err error) {
 		var optimizeAlternates func(node *node) (consumes bool, s *set.Set)
 		cache := make([]struct {
 			reached  bool
+			done     bool
 			consumes bool
 			s        *set.Set
 		}, t.RulesCount)
@@ -710,6 +711,12 @@ func (t *Tree) Compile(file string, args []string, out io.Writer) (err error) {
 			case TypeRule:
 				cache := &cache[n.GetID()]
 				if cache.reached {
+					if !cache.done {
+						/* recursion: the first characters of a rule that is
+						   still being analysed are not known, assume any */
+						s.AddRange(0, unicode.MaxRune)
+						return false, s
+					}
 					consumes = cache.consumes
 					s = cache.s
 					return consumes, s
@@ -718,6 +725,7 @@ func (t *Tree) Compile(file string, args []string, out io.Writer) (err error) {
 				consumes, s = optimizeAlternates(n.Front())
 				cache.consumes = consumes
 				cache.s = s
+				cache.done = true
 			case TypeName:
 				consumes, s = optimizeAlternates(t.Rules[n.String()])
 			case TypeDot:
@@ -862,6 +870,7 @@ func (t *Tree) Compile(file string, args []string, out io.Writer) (err error) {
 
 		for i := range cache {
 			cache[i].reached = false
+			cache[i].done = false
 		}
 		firstPass = false
 		for element := range t.Iterator() {
